@@ -112,4 +112,10 @@ SUBCHECKS = [
              quick=3000, thorough=300000, shards_quick=4, shards_thorough=16,
              seq_groups=[["ell"], ["prj", "zone"], ["east"], ["north", "hemi"]],
              fresh=(8, 64, 3), rule="grid2geo psf / convergence vs the exact derivative at the returned point; forward at that point reports the same"),
+    SubCheck("forward_axis_sweeps", check_forward, enumerate=T.geo_sweeps(40000, 640000), nontrivial=_nt_geo, classes=_cls_geo,
+             shards_quick=8, shards_thorough=16,
+             rule="stratified sweeps through the latitude band and the longitudes (lattice of 40 000 / 640 000 points per line, lines fixed by the seed)"),
+    SubCheck("inverse_axis_sweeps", check_inverse, enumerate=T.grid_sweeps(20000, 320000), nontrivial=_nt_grid, classes=_cls_grid,
+             shards_quick=8, shards_thorough=16,
+             rule="stratified sweeps through northings (equator .. band limit) and eastings (usual zone / out to 3 000 km), 20 000 / 320 000 points per line"),
 ]
